@@ -48,8 +48,10 @@ func (f *fragment) Stats() storage.Stats {
 func (f *fragment) Compaction() (bool, error) {
 	select {
 	case <-f.ctx.Done():
-		// fragment is closed or destroyed
-		return false, nil
+		// The fragment is closed or destroyed, there is nothing left to compact. Reporting
+		// "not done" here made the compaction worker call again and again, forever: it
+		// never came back to the other fragments of this member.
+		return true, nil
 	default:
 	}
 	return f.storage.Compaction()
